@@ -199,7 +199,9 @@ func (f featSpec) build() gts.Feature {
 // featKeys includes the INSDC keys that are not plain words: an apostrophe, a
 // hyphen, a leading hyphen; and keys that fill the 15 columns a key may take.
 var featKeys = []string{"source", "gene", "CDS", "misc_feature", "rep_origin", "mRNA", "promoter", "exon", "sig_peptide", "regulatory", "misc_RNA", "mat_peptide", "variation",
-	"5'UTR", "3'UTR", "D-loop", "-10_signal", "-35_signal", "misc_difference", "mobile_element", "N_region", "primer_bind", "polyA_site"}
+	"5'UTR", "3'UTR", "D-loop", "-10_signal", "-35_signal", "misc_difference", "mobile_element", "N_region", "primer_bind", "polyA_site",
+	// user-defined keys (gts define, gts search -k) wider than the 15 columns of the INSDC keys
+	"restriction_site", "primer_bind_site2", "transcription_start_site"}
 var quotedNames = []string{"gene", "product", "note", "locus_tag", "db_xref", "organism", "mol_type", "function", "translation", "protein_id", "strain"}
 var literalNames = []string{"codon_start", "transl_table", "number", "citation", "rpt_type", "anticodon"}
 var toggleNames = []string{"pseudo", "partial", "germline", "focus", "environmental_sample"}
@@ -582,6 +584,9 @@ func genRec(r *core.RNG, idx int) recSpec {
 		}
 		if r.Chance(1, 2) {
 			ref.Pubmed = fmt.Sprint(r.Range(1000, 99999999))
+			if r.Chance(1, 12) {
+				ref.Pubmed += "\n" + fmt.Sprint(r.Range(1000, 99999999))
+			}
 		}
 		if r.Chance(1, 4) {
 			ref.Remark = genText(r, 2, 8)
@@ -599,7 +604,9 @@ func genRec(r *core.RNG, idx int) recSpec {
 		s.SeqLen = r.Range(0, 400)
 	}
 	s.SeqSeed = r.U64()
-	if r.Chance(1, 12) {
+	if r.Chance(1, 25) {
+		s.Alphabet = "acgt \t" // what a FASTA file with blanks at its line ends hands to an insert
+	} else if r.Chance(1, 12) {
 		s.Alphabet = "acgt-n" // alignment gaps
 	} else if r.Chance(1, 10) {
 		s.Alphabet = "acgtnrykm"
